@@ -11,7 +11,9 @@ let rec pos_of_int (i : int) : positive =
   else if i land 1 = 0 then XO (pos_of_int (i lsr 1))
   else XI (pos_of_int (i lsr 1))
 
-let n_of_int (i : int) : n = if i = 0 then N0 else Npos (pos_of_int i)
+let n_of_int_raw (i : int) : n = if i = 0 then N0 else Npos (pos_of_int i)
+let small_tab : n array = Array.init 70000 n_of_int_raw
+let n_of_int (i : int) : n = if i >= 0 && i < 70000 then Array.unsafe_get small_tab i else n_of_int_raw i
 
 (* decimal string -> N; fast path through native ints, slow path for >= 2^62 *)
 let n_of_string (s : string) : n =
@@ -55,9 +57,24 @@ let string_of_n (x : n) : string =
       String.concat "" (go x [])
     end
 
+(* hand-rolled scanner: digits separated by blanks *)
 let parse_list (s : string) : n list =
-  let toks = String.split_on_char ' ' s in
-  List.rev (List.fold_left (fun acc t -> if t = "" then acc else n_of_string t :: acc) [] toks)
+  let l = String.length s in
+  let rec go (i : int) (acc : n list) : n list =
+    if i < 0 then acc
+    else if s.[i] = ' ' then go (i - 1) acc
+    else begin
+      let j = ref i in
+      while !j >= 0 && s.[!j] <> ' ' do decr j done;
+      let tl = i - !j in
+      if tl <= 18 then begin
+        let v = ref 0 in
+        for k = !j + 1 to i do v := !v * 10 + (Char.code s.[k] - 48) done;
+        go !j (n_of_int !v :: acc)
+      end else go !j (n_of_string (String.sub s (!j + 1) tl) :: acc)
+    end
+  in
+  go (l - 1) []
 
 let show_list (l : n list) : string = String.concat " " (List.map string_of_n l)
 
